@@ -30,6 +30,8 @@ import SigModel.Model.Crash
 import SigModel.Model.CrashMeta
 import SigModel.Lemmas.C07d
 import SigModel.Lemmas.C07e
+import SigModel.Model.CrashSuffix
+import SigModel.Lemmas.C07f
 
 namespace SigModel.Props.C07
 open SigModel.Crash
@@ -101,6 +103,65 @@ theorem restart_no_overwrite (h : Hist) (k : Nat) :
 yet created): both flushes served from the sealed segment, next suffix 2 -/
 example : visible (crashAfter [.fl [0, 1], .fl [2], .ro] 21) = [0, 1] ∧ nextSuffix (crashAfter [.fl [0, 1], .fl [2], .ro] 21) = 2
     ∧ (crashAfter [.fl [0, 1], .fl [2], .ro] 21).dirs = [0] := by decide
+
+/-! ### the segment number of the restarted writer, at system-call level (Model/CrashSuffix.lean)
+
+`restart_no_overwrite` rests on the step `suffixTmp` = "os.WriteFile of the temp file completed".  An os.WriteFile is
+two system calls (open with O_TRUNC, write); the statements below are about every crash point between single system
+calls, for any number of processes that each die anywhere, and they depend on the temp file + rename visibly: the
+in-place variant is refuted. -/
+
+/-- C07.4 at system-call level, as a statement about an allocation protocol: over a whole life of the node (process
+after process on one directory, each making any number of allocations and dying after any number of system calls) no
+segment number is handed out twice, and the number the NEXT process will read from the suffix file is above every
+number ever handed out — the restarted writer's first segment directory is fresh, new ingestion cannot touch the
+files of a segment that may hold flushed data. -/
+def SegmentNumberNeverReissued (proto : Nat → List CrashSuffix.Sys) : Prop :=
+  ∀ (d : CrashSuffix.Disk) (runs : List (Nat × Nat)),
+    (∀ r ∈ CrashSuffix.lifeHanded proto d runs, r < CrashSuffix.getSuffix (CrashSuffix.life proto d runs)) ∧
+    (CrashSuffix.lifeHanded proto d runs).Nodup
+
+/-- … holds for the protocol of the code (writeSuffix: os.WriteFile of `<file>.tmp`, os.Rename onto the file; getSuffix
+reading a missing or empty file as 0), from ANY initial content of the two files. -/
+theorem segment_number_never_reissued : SegmentNumberNeverReissued CrashSuffix.allocTmpRename := fun d runs =>
+  let H := SigModel.Lemmas.C07f.life_fresh runs d
+  ⟨fun r hr => (H.2.1 r hr).2, H.2.2.imp (fun h => Nat.ne_of_lt h)⟩
+
+/-- … and is FALSE for the variant that rewrites the suffix file in place (os.WriteFile on the file itself): one
+process, two allocations, death between the open(O_TRUNC) and the write of the second one — the file is empty, the
+restart reads 0, and 0 was handed out. -/
+theorem segment_number_never_reissued_counterexample_inplace : ¬ SegmentNumberNeverReissued CrashSuffix.allocInPlace := by
+  intro h
+  have h0 := (h {} [(2, 3)]).1 0 (by decide)
+  revert h0
+  decide
+
+/-- the kernel of the positive statement: until the rename has happened nothing that a restart reads has changed,
+wherever the process dies inside the write of the temp file (also between its open(O_TRUNC) and its write: the crash
+points `…|~open` of the harness). -/
+theorem suffix_unchanged_before_rename (d : CrashSuffix.Disk) (r k : Nat) (hk : k < 3) :
+    CrashSuffix.getSuffix (CrashSuffix.run d ((CrashSuffix.allocTmpRename r).take k)) = CrashSuffix.getSuffix d :=
+  SigModel.Lemmas.C07f.getSuffix_allocTmpRename_prefix d r k hk
+
+/-- tie between the two models: the number the restarted writer takes in the step model (`nextSuffix`, compared with
+the real code at every crash point: field `next=`) is `getSuffix` of the two suffix files, and `openSteps n` acts on
+them as one temp-file + rename allocation. -/
+theorem step_model_suffix_is_alloc (fs : FS) (n : Nat) :
+    nextSuffix fs = CrashSuffix.getSuffix (SigModel.Lemmas.C07f.project fs) ∧
+    SigModel.Lemmas.C07f.project (run fs (openSteps n)) =
+      CrashSuffix.run (SigModel.Lemmas.C07f.project fs) (CrashSuffix.allocTmpRename n) :=
+  ⟨SigModel.Lemmas.C07f.project_nextSuffix fs, SigModel.Lemmas.C07f.project_openSteps fs n⟩
+
+/-- non-vacuity: process 1 hands out 0, dies between the open and the write of the temp file of its second
+allocation; process 2 reads 1, hands out 1, completes: numbers 0 and 1 handed out, the next process reads 2 -/
+example : CrashSuffix.lifeHanded CrashSuffix.allocTmpRename {} [(2, 4), (1, 3)] = [0, 1] ∧
+    CrashSuffix.getSuffix (CrashSuffix.life CrashSuffix.allocTmpRename {} [(2, 4), (1, 3)]) = 2 ∧
+    CrashSuffix.crashAfter CrashSuffix.allocTmpRename 2 {} 4 = { file := .num 1, tmp := .empty } := by decide
+
+/-- the in-place witness spelled out: number 0 handed out, then the file is empty and reads as 0 again -/
+example : CrashSuffix.lifeHanded CrashSuffix.allocInPlace {} [(2, 3)] = [0] ∧
+    CrashSuffix.life CrashSuffix.allocInPlace {} [(2, 3)] = { file := .empty, tmp := .missing } ∧
+    CrashSuffix.getSuffix (CrashSuffix.life CrashSuffix.allocInPlace {} [(2, 3)]) = 0 := by decide
 
 /-! ### "searchable", not only "served by a match-all search": the metadata records (Model/CrashMeta.lean)
 
